@@ -96,6 +96,8 @@ func renderTo(b *strings.Builder, v MalType, depth int) {
 		b.WriteString(" )")
 	case *concurrent.Future:
 		b.WriteString("( FU )")
+	case interface{ ErrorValue() MalType }:
+		b.WriteString("( OP lisperror.LispError )")
 	case error:
 		b.WriteString("( GE )")
 	default:
